@@ -17,7 +17,7 @@ CHECKS = {
  "C02": ("Slice and map options with SYMBOLIC, unbounded (min,max), attached or detached first value and 0-2 (thorough 3) following tokens drawn symbolically from "
          "{well-formed value, malformed value, --flag, -, --, command name}: the solver shows that exactly the tokens the statement says are consumed, "
          "values are stored in order (map: text before the first '=' / everything after, last key wins), leftovers are interpreted normally, too few values fail; "
-         "definitions with min<1 or max<min are rejected at definition; int ranges a..a+d (d<=3) expand inclusively for all a, also when the option already holds values from an earlier occurrence or an earlier mandatory value; int list elements given as ANY text are stored as exactly what strconv.Atoi yields or rejected.",
+         "definitions with min<1 or max<min are rejected at definition; int ranges a..a+d (d<=3) expand inclusively for all a, also when the option already holds values from an earlier occurrence or an earlier mandatory value; int list elements given as ANY text are stored as exactly what strconv.Atoi yields or rejected; an attached value of ANY shape reaches list and map options verbatim in both spellings.",
          "one occurrence of the option, <=2/3 following tokens, int values are canonical numerals (numeral syntax is C01's subject), malformed values start with a letter outside every numeral syntax, range span <=3 with |a|<=2^62; "),
  "C03": ("Two unconstrained raw tokens (any bytes, any length) over a program with a flag, a string option and a command, in all 18 combinations of "
          "single-dash mode x unknown mode x require-order: on every path where Parse succeeds the solver shows remaining is an order-preserving sub-list of argv, "
@@ -36,7 +36,7 @@ CHECKS = {
          "must agree on every value, on remaining and on error-ness; Called is true under every name, CalledAs is the spelling last used, *Var target and Value(x) agree; "
          "12 sibling options of all kinds with SYMBOLIC defaults keep them and report Called false; SetCalled is honoured; one-letter multibyte aliases sharing a first byte address their own option only and ANY undeclared two-byte letter (symbolic) touches nothing; an option declared between two NewCommand calls is Called / CalledAs / valued exactly behind either command.",
          "<=2 occurrences, 3 aliases, values are arbitrary strings (ints: canonical numerals); "),
- "C07": ("Relational, no oracle: in Normal mode -NAME[=v] vs --NAME[=v] for EVERY name text; in Bundling mode -xyz[=v] vs -x -y -z[=v] for declared letters; in SingleDash mode -xREST vs --x=REST for every REST "
+ "C07": ("Relational, no oracle: in Normal mode -NAME[=v] vs --NAME[=v] for EVERY name text; in Bundling mode -xyz[=v] vs -x -y -z[=v] for declared letters; in SingleDash mode -xREST vs --x=REST for every REST (plus concrete invalid-UTF-8 byte patterns and option letters of 3-4 bytes) "
          "(x one of 5 letters incl. a 2-byte one) and -x vs --x; any token starting with `--` under two different modes: all values, Called, CalledAs, remaining and error-ness must be equal.",
          "one option token plus an optional detached value; bundles of 2-3 declared letters; REST for the int option <=6 bytes; UTF-8 sequences of 1-2 bytes (longer/invalid cut and counted); default unknown mode; "),
  "C08": ("An unknown option (--x, --x=w with SYMBOLIC x matching no declared name as prefix, or -y) placed alone, between known options, before a command token, after one, inside an UnsetOptions+Pass wrapper or a wrapper that inherited its mode, a number-looking unknown (-N for symbolic N, -2.5) behind an int / float list with room, "
@@ -80,7 +80,7 @@ CHECKS = {
          "the text written via --help, -?, the help command equals Help().",
          "one option under test plus two context options; descriptions and defaults free of newline, '[' and '-'; "),
  "C19": ("Every instruction that can panic is checked and every loop is bounded on all explored paths: two UNCONSTRAINED raw tokens over the small program in all modes, one raw token (+ value / terminator / dash / command) over all 12 option kinds, "
-         "COMP_LINE with a raw last word for both targets, Dispatch and Help() after every successful Parse, int ranges whose ends reach MaxInt64 / MinInt64; a failed Parse returns nil remaining.",
+         "COMP_LINE with a raw last word for both targets, concrete tokens with invalid UTF-8 in all modes, Dispatch and Help() after every successful Parse, int ranges whose ends reach MaxInt64 / MinInt64; a failed Parse returns nil remaining.",
          "argv of <=2 tokens, bundles <=2 letters, numerals <=12 digits and no '..' in raw tokens (ranges have their own harness), quick tier restricts mode combinations (all 18 in thorough); "),
  "C20": ("14 scenarios with >=2 entries in every table (missing required options at root and on a command (also with names that differ only in letter case), unknown options in Fail and Warn mode, 3 ambiguous candidates, help text, `help <abbreviated topic>`, abbreviated option with attached value, option and command completion) are run under the canonical map order and under every explored "
          "iteration order of every map ranged over (all permutations up to 3 entries, rotations+reverse beyond): all observable output must be identical.",
